@@ -10,7 +10,7 @@ from vf.world import CELLMAP, plant, sut, make_sketch
 RULE = (
     "Hypothesis rule-based machine over 2 count-min sketches of one type (linear / log16 / log8; width from {1,2,3,4,8,16}, depth 1..4; log "
     "configurations max_count in {300,1000,5000,70000,10^6,2^32-1} x num_reserved in {0,1,3,15,1023}); states are produced by adds, "
-    "list/dict/ngram updates, merges and (linear) runs of 22-32 doubling merges that push n_added beyond 2^53; every add(k,v) step (v up to 2^40 for linear, <= 2000 for log; log draws planted by the harness from "
+    "list/dict/ngram updates, merges and (linear) runs of 22-32 doubling merges that push n_added beyond 2^53; every add(k,v) step (v up to 2^40 for linear, <= 70000 for log plus 2^63-1 .. 2^64-1 on log sketches with max_count <= 10^6, n_added compared modulo 2^64; log draws planted by the harness from "
     "arbitrary floats in [0,1) incl. 0, 2^-1074, 1-2^-53) is observed with before/after snapshots of the table, n_added() and query(u) for every "
     "key u of the universe. Oracle: linear query(k)' == min(query(k)+v, 2^32-1); log: smallest counter c <= c' <= min(c+v, umax), and c'==c+v, "
     "query(k)'==query(k)+v whenever c+v <= num_reserved+1; no estimate decreases; query(u)' <= max(query(u), query(k)') for u != k; at most one "
@@ -102,8 +102,9 @@ class AddChecker:
         if len(diff) > cfg["depth"]:
             raise Violation(f"{ctx}: more than one counter per row changed", "foreign-cell-changed")
         # bookkeeping counters
-        dn = int(sk.n_added()) - pre["n_added"]
-        veff = min(v, CEIL) if kind == "linear" else v
+        # n_added is a 64-bit unsigned counter: growth is compared modulo 2^64 (a total beyond 2^64-1 cannot be represented)
+        dn = (int(sk.n_added()) - pre["n_added"]) % 2**64
+        veff = (min(v, CEIL) if kind == "linear" else v) % 2**64
         if not cut and dn != veff:
             raise Violation(f"{ctx}: n_added grew by {dn}, expected {veff}", "n_added")
         # non-triviality: conservative updating differs from plain updating
@@ -153,7 +154,7 @@ def _shard(arg):
 
     M = machines.make_machine(
         "C05Machine", AddChecker, rec, holder, SELF_MERGE=True, CFG=ANY_CMS_CFG, N=2, VALUES=_values(), DRAWS=DRAWS, SAVELOAD=False, MAXKEY=24,
-        add_big_linear=add_big_linear, pump_n_added=pump_n_added,
+        add_big_linear=add_big_linear, pump_n_added=pump_n_added, add_huge_log=machines.huge_log_rule(),
     )
     common.run_machine(M, common.derive_seed(seed, "C05", shard), n_examples, steps, holder, rec, retry=lambda c_: machines.replay_trace(c_, AddChecker))
     return rec
